@@ -549,6 +549,9 @@ func (s *Sys) member(i int, sub Sub) ecs.Listener {
 			ids = append(ids, s.IDs[k])
 		}
 	}
+	if len(ids) == 0 && i%2 == 1 {
+		ids = []ecs.ID{} // no component restriction, spelled as an empty list instead of none at all
+	}
 	rl := &recListener{s: s, sink: sink}
 	cb := listener.NewCallback(func(w *ecs.World, e ecs.EntityEvent) { rl.Notify(w, e) }, event.Subscription(sub.S), ids...)
 	return &cb
